@@ -187,7 +187,7 @@ def inline_set(mod, fx):
             known = set(json.load(f)["items"])
     except Exception:
         return frozenset()
-    return frozenset(k for k, v in fx.fns.items() if v["kind"] in ("Fn", "AssocFn") and k not in known)
+    return frozenset(k for k, v in fx.fns.items() if v["kind"] in ("Fn", "AssocFn", "Closure") and k not in known)
 
 
 def run_property(prop, tier, fx, fx_nd):
